@@ -656,7 +656,7 @@ class MacroProgram(ElementProgram):
         self._switches.pop()
         self._interpolation.pop()
 
-        if use_macro:
+        if use_macro or extend_macro:
             self._use_macro.pop()
 
         return wrap(
